@@ -229,6 +229,10 @@ fn lkey(n: &LNode) -> LKey {
     (raw(n.s.piece_board()), n.steps as u8, pp.map_or(0, |p| pps_code(p.push_pull_state())), pp.map_or(false, |p| p.piece_trapped_this_turn()))
 }
 
+/// Steps of the turn after which states are still compared with their images but no longer expanded (4 = the whole
+/// turn).  Set only by the sequential "all seeds, shallow" sweep of the quick tier.
+pub static STEP_LIMIT: std::sync::atomic::AtomicUsize = std::sync::atomic::AtomicUsize::new(4);
+
 fn dfs_turn(ctx: &mut LCtx, n: &LNode, seen: &mut FxSet<LKey>) {
     if report::stopped() {
         return;
@@ -239,6 +243,10 @@ fn dfs_turn(ctx: &mut LCtx, n: &LNode, seen: &mut FxSet<LKey>) {
     ctx.stats.states += 1;
     ctx.path = n.path.clone();
     let va = compare(ctx, n);
+    if n.steps >= STEP_LIMIT.load(std::sync::atomic::Ordering::Relaxed) {
+        ctx.stats.add("c11_states_compared_but_not_expanded_step_limit", 1);
+        return;
+    }
     for a in va.iter() {
         ctx.path = n.path.clone();
         let t = step(ctx, n, a);
